@@ -165,6 +165,13 @@ def r5(ctx, prog):
     ctx.floor(R, 3)
 
 
+def r6(ctx, prog):
+    R = ctx.rule("C12.R6", "a walk never removes segments from the abandoned set: every segment the cursor hands out is re-marked (or reclaimed) before the next fetch or the return, "
+                           "also when the visitor stopped the walk")
+    shared.cursor_pairing(ctx, R, prog)
+    ctx.floor(R, 4)
+
+
 def run(ctx):
     ctx.explanation = ("Static decision of C12's code-shaped necessary conditions: loop bounds and next-saving of the page walk, collect-before-inspect dominance, result discipline of all "
                        "indirect visitor calls, re-marking in the abandoned walk, free-map sizing against the bin table, index/bit split and cursor arithmetic. "
@@ -172,7 +179,7 @@ def run(ctx):
     for c in (["REL"] if ctx.tier == "quick" else ["REL", "SEC", "DBG"]):
         prog = ctx.prog(c)
         n0 = len(ctx.instances)
-        r1(ctx, prog); r2(ctx, prog); r3(ctx, prog); r4(ctx, prog); r5(ctx, prog)
+        r1(ctx, prog); r2(ctx, prog); r3(ctx, prog); r4(ctx, prog); r5(ctx, prog); r6(ctx, prog)
         if c != "REL":
             for i in ctx.instances[n0:]:
                 i["site"] += " [%s]" % c
